@@ -321,6 +321,7 @@ def runCatch (env : Env) (lang : Option Bytes) (b : Bytes) : VM Bytes := do
   if r then do
     logMove "CATCH" sym
     let (actual, _) ← applyTarget sym
+    vmReset      -- (fix: commit) a CATCH move clears mappings and menu like every other move
     getCodeM env lang actual
   else pure b
 
